@@ -149,6 +149,12 @@ package tracer
 //@   requires c != nil
 //@   modifies @h2state
 //@   ensures !held[c.mu] && forall id int :: !has(c.streams, id)
+//@   //# how an open stream ends depends on the side: a server connection was still to answer (the
+//@   //# response body ends with the error), a client connection was still sending (the request body
+//@   //# ends with the error and the call counts as cancelled)
+//@   assert_at "stream.builder.add(&ResponseBodyEnd{Err: err})": c.isServer
+//@   assert_at "stream.builder.add(&RequestBodyEnd{Err: err})": !c.isServer
+//@   assert_at "stream.builder.add(&RequestCanceled{})": !c.isServer
 //@   loop 0: invariant held[c.mu] && c.streams == atlock(c.streams)
 //@           invariant forall id int :: has(c.streams, id) ==> wfStream(c.streams[id]) && rangeidx(id) >= rangepos
 
@@ -176,6 +182,11 @@ package tracer
 //@   assume_at "stream.requestTracer.trace(frame.Data())": slicebase(fieldaddr(stream, requestTracer).prefix) == 0 || slicebase(fieldaddr(stream, requestTracer).prefix) != h2DataBase(box(frame))
 //@   assume_at "stream.responseTracer.trace(frame.Data())": slicebase(fieldaddr(stream, responseTracer).prefix) == 0 || slicebase(fieldaddr(stream, responseTracer).prefix) != h2DataBase(box(frame))
 //@   assume_at "c.receiveResponseLocked(stream, frame)": fieldaddr(stream, responseTracer).actual == 0
+//@   //# attribution: a HEADERS frame starts the response only when it travels in the response direction and
+//@   //# the stream has no response yet; request-side HEADERS after the first are request trailers
+//@   assert_at "c.receiveResponseLocked(stream, frame)": !isRequest && !stream.gotResponse
+//@   assert_at "stream.builder.setRequestTrailers(makeHeaders(frame))": isRequest
+//@   assert_at "stream.builder.setResponseTrailers(makeHeaders(frame))": !isRequest && stream.gotResponse
 
 // ---- frame splitter ----
 //@ func (*http2FrameTracer).traceHeaderLocked
